@@ -2,6 +2,7 @@ package harness
 
 import (
 	"context"
+	"fmt"
 	"math"
 	"encoding/binary"
 	"net"
@@ -23,13 +24,50 @@ import (
 //
 //   input (18 filter_on ((proto v6 last start_ms group) ...))      proto: 0 udp 1 tcp-syn 2 icmp; group > 0: run is one
 //                                                                  of the queries of RunTraceroute request #group
-//   impl  ((status ((ttl ip dest rtt_negative rtt_us) ...)) ...)   one entry per run, same order
+//   impl  ((status ((ttl ip dest rtt_negative rtt_us) ...) port_held) ...)   one entry per run, same order;
+//         port_held = 0 when another socket could bind the run's local UDP / TCP port while the run was in flight
 
 type sharedNet struct {
 	mu      sync.Mutex
 	handles []*wireHandle
 	replies int
 	probes  int
+	// for UDP / TCP flows: could somebody else bind the flow's local port while the run was in flight?
+	// (the run must hold it: the kernel then never hands it to a second run)
+	portFree map[[2]int]bool
+}
+
+// probePort is called at the first probe of a UDP / TCP flow: tries to take the flow's local port.
+func (n *sharedNet) probePort(proto byte, v6 bool, port int) {
+	n.mu.Lock()
+	if n.portFree == nil {
+		n.portFree = map[[2]int]bool{}
+	}
+	k := [2]int{int(proto), port}
+	_, seen := n.portFree[k]
+	n.mu.Unlock()
+	if seen {
+		return
+	}
+	free := false
+	if proto == 6 {
+		if l, err := net.Listen("tcp", fmt.Sprintf(":%d", port)); err == nil {
+			free = true
+			l.Close()
+		}
+	} else {
+		ip := net.IPv4(127, 0, 0, 1)
+		if v6 {
+			ip = net.IPv6loopback
+		}
+		if c, err := net.ListenUDP("udp", &net.UDPAddr{IP: ip, Port: port}); err == nil {
+			free = true
+			c.Close()
+		}
+	}
+	n.mu.Lock()
+	n.portFree[k] = free
+	n.mu.Unlock()
 }
 
 func sharedPath(key int) (n, silent int) {
@@ -88,6 +126,7 @@ func (n *sharedNet) onProbe(p outPkt) {
 			key = int(binary.BigEndian.Uint16(l4[4:6]))
 		case 6, 17:
 			key = int(binary.BigEndian.Uint16(l4[0:2]))
+			n.probePort(proto, false, key)
 		default:
 			return
 		}
@@ -145,6 +184,7 @@ func (n *sharedNet) onProbe(p outPkt) {
 			key = int(binary.BigEndian.Uint16(l4[4:6]))
 		case 17:
 			key = int(binary.BigEndian.Uint16(l4[0:2]))
+			n.probePort(17, true, key)
 		default:
 			return
 		}
@@ -196,12 +236,15 @@ func hopsSx(hs []*result.TracerouteHop) sx {
 	return l
 }
 
+var nwPorts *sharedNet // the network of the scenario being run (labs run one scenario at a time)
+
 func runShared(t *testing.T, runs []sharedRun, filterOn bool) (sx, sx, int, int) {
 	outs := make([]sx, len(runs))
 	probes, replies := 0, 0
 	synctest.Test(t, func(t *testing.T) {
 		f := &wireFactory{}
 		nw := &sharedNet{}
+		nwPorts = nw
 		f.onNew = func(h *wireHandle) {
 			h.src.applyFilter = filterOn
 			h.snk.onWrite = nw.onProbe
@@ -278,13 +321,50 @@ func runShared(t *testing.T, runs []sharedRun, filterOn bool) (sx, sx, int, int)
 		probes, replies = nw.probes, nw.replies
 		nw.mu.Unlock()
 	})
+	// which flow is which run: the flow key is in the router addresses of the run's own hops
+	heldOf := func(o sx, proto string) sx {
+		held := int64(1)
+		if l, ok := o.(sxList); ok && len(l) == 2 && proto != "icmp" {
+			if hs, ok := l[1].(sxList); ok {
+				for _, h := range hs {
+					hl, ok := h.(sxList)
+					if !ok || len(hl) < 2 {
+						continue
+					}
+					ip, ok := hl[1].(sxBytes)
+					key := -1
+					if ok && len(ip) == 4 && ip[0] == 10 {
+						key = int(ip[1])<<8 | int(ip[2])
+					} else if ok && len(ip) == 16 && ip[0] == 0xfd {
+						key = int(ip[12])<<8 | int(ip[13])
+					}
+					if key >= 0 {
+						pr := 17
+						if proto == "tcp" {
+							pr = 6
+						}
+						nwPorts.mu.Lock()
+						if nwPorts.portFree[[2]int{pr, key}] {
+							held = 0
+						}
+						nwPorts.mu.Unlock()
+						break
+					}
+				}
+			}
+		}
+		if l, ok := o.(sxList); ok {
+			return append(append(sxList{}, l...), sxInt(held))
+		}
+		return o
+	}
 	in, out := sxList{}, sxList{}
 	for j, c := range runs {
 		in = append(in, L(sxInt(int64(protoCode(c.proto))), sxBool(c.v6), sxInt(int64(c.last)), sxInt(int64(c.startMs)), sxInt(int64(c.group))))
 		if outs[j] == nil {
 			outs[j] = L(sxInt(3), sxList{})
 		}
-		out = append(out, outs[j])
+		out = append(out, heldOf(outs[j], c.proto))
 	}
 	return L(sxInt(18), sxBool(filterOn), in), L(out...), probes, replies
 }
